@@ -404,6 +404,7 @@ def handshake_state_reset(chk):
             res.append(bool(sts) and bool(hs) and all(any(F2.dominates(x['id'], h['id']) for x in sts) for h in hs))
         return res
     n = 0
+    n2 = 0
     for key, resetfn in (('hs_client', 3), ('hs_server', 4)):
         P = t0.Program(key)
         L = P.layouts
@@ -439,7 +440,35 @@ def handshake_state_reset(chk):
                 chk.violation(R, inst, P.src, 'the handshake reads this field before writing it (W%d@%d) and neither br_ssl_engine_set_buffers_bidi (buffers reused), '
                               'br_ssl_engine_hs_reset nor br_ssl_%s_reset stores it: a reused context starts the next handshake with the value the previous '
                               'connection negotiated' % (sorted(rd[off])[0] + (key[3:],)), key='%s %s %s' % (R, key, name))
+        # engine fields the bytecode only writes, but the engine's C code reads (record routing state): same requirement
+        uc = build.load_unit(s)
+        UC = irf.Units({'u': uc})
+        cread = {}
+        for fn_, F_ in UC.funcs.items():
+            ps_ = F_.f['params']
+            if not ps_ or 'br_ssl_engine_context' not in ps_[0]['ty']:
+                continue
+            for i_ in F_.insts.values():
+                if i_['op'] == 'load':
+                    b_, o_ = F_.addr_of(i_['ops'][0])
+                    if b_ == {'k': 'a', 'v': 0} and o_ is not None:
+                        cread.setdefault(o_, set()).add(fn_)
+        for off in sorted((set(wr) - set(rd)) & set(cread)):
+            fa = L.field_at(P.ctxname, off)
+            name = fa[2] if fa else 'offset %d' % off
+            if not name.startswith('eng.'):
+                continue
+            n2 += 1
+            inst = '%s: %s (set by the handshake, read by %s) starts every connection from a defined value' % (key, name, ', '.join(sorted(cread[off])[:2]))
+            w = c_reset_writes(off, fa[1])
+            if w[0] or w[1] or w[2 if key == 'hs_client' else 3]:
+                which = [nm for nm, x in zip(('set_buffers_bidi(NULL)', 'hs_reset', 'client_reset', 'server_reset'), w) if x]
+                chk.ok(R, inst, P.src, 'stored on every non-failing path of %s' % ', '.join(which))
+            else:
+                chk.violation(R, inst, P.src, 'neither br_ssl_engine_set_buffers_bidi (buffers reused), br_ssl_engine_hs_reset nor br_ssl_%s_reset stores it: a reused '
+                              'context starts the next connection with the value left by the previous one' % key[3:], key='%s %s %s c-read' % (R, key, name))
     chk.floor('handshake-mutable fields examined', n, 12)
+    chk.floor('handshake-written, engine-read fields examined', n2, 6)
 
 
 def ske_hash_by_version(chk):
